@@ -312,13 +312,6 @@ theorem absOk_content {P : CMode → Prop} (ss : Session) (op : Op) (a a' : Mess
       | (simp only [Except.ok.injEq] at habs; subst habs; exact ⟨hC.qs, hC.an, hC.ns, hC.ar, hC.modes⟩)
       | cases habs
 
-/-- the remaining argument types of the Rust API that `Op.Typed` does not list: the EDNS payload size
-    and the TSIG `fudge` / original ID / error are `u16` -/
-def ApiBounds : Op → Prop
-  | .setEdns p => p < 65536
-  | .setTsig _ rr => rr.fudge < 65536 ∧ rr.originalId < 65536 ∧ rr.error < 65536
-  | _ => True
-
 def NonEmptySet : Op → Prop
   | .addRrset _ _ _ _ _ _ rds _ => rds ≠ []
   | _ => True
@@ -387,7 +380,8 @@ theorem walk_segment {sR : State} (hcurR : sR.cursor ≤ 65535) (d : Message.Dec
       (d.extents.map (·.2)).take (qs.length + rs.length) = qs.map qEnd ++ rs.map rEnd) :
     ∀ (ops : List Op) (ss : Session) (b : Body) (mb : MBody) (a : Message.AState),
       I ss.w → CLay (fun _ => True) ss.w b mb → AbsNum ss.w a → IdxOK a → a.itemIdx = bodyLen b →
-      a.hdr = specHeader ss.w.octets → a.hdr.z = 0 → AbsContent a b mb → AbsCfg ss.w a → (∀ op ∈ ops, op.Typed) →
+      a.hdr = specHeader ss.w.octets → a.hdr.z = 0 → AbsContent a b mb → AbsCfg ss.w a →
+      (∀ op ∈ ops, op.Typed ∧ ApiBounds op) →
       Respects ss ops → (∀ op ∈ ops, op ≠ .clearRrs ∧ op ≠ .getters ∧ NonEmptySet op) → (run ss ops).1.w = sR →
       ∃ aF, AbsNum sR aF ∧ aF.hdr = specHeader sR.octets ∧ aF.hdr.z = 0 ∧
         AbsContent aF (bodyRun b ops (run ss ops).2) (mrun ss mb ops) ∧ AbsCfg sR aF ∧
@@ -402,8 +396,8 @@ theorem walk_segment {sR : State} (hcurR : sR.cursor ≤ 65535) (d : Message.Dec
   | cons op ops ih =>
     intro ss b mb a hI hL hA hidx hlen hh hz hC hG ht hr hno hfin
     obtain ⟨hop, hrest⟩ := hr
-    have ht' : ∀ op' ∈ ops, op'.Typed := fun op' h => ht op' (List.mem_cons_of_mem _ h)
-    have hhs := hdr_step ss op hI.inv (ht op List.mem_cons_self)
+    have ht' : ∀ op' ∈ ops, op'.Typed ∧ ApiBounds op' := fun op' h => ht op' (List.mem_cons_of_mem _ h)
+    have hhs := hdr_step ss op hI.inv (ht op List.mem_cons_self).1
     obtain ⟨hnp, hI'⟩ := step_I ss op hI hop
     obtain ⟨hnc, hng, hnes⟩ := hno op List.mem_cons_self
     have hno' : ∀ op' ∈ ops, op' ≠ .clearRrs ∧ op' ≠ .getters ∧ NonEmptySet op' :=
@@ -515,7 +509,7 @@ theorem walk_segment {sR : State} (hcurR : sR.cursor ≤ 65535) (d : Message.Dec
           have hz' : a'.hdr.z = 0 := by rw [hah, hdrStep_z]; exact hz
           have hC' := absOk_content ss op a a' d b mb hL hA hC hnc hok habs
           have hG' : AbsCfg ss'.w a' := by
-            have := cfg_step ss op a a' d hI hG hok habs
+            have := cfg_step ss op a a' d hI hG (ht op List.mem_cons_self).2 hok habs
             rw [hw'] at this; exact this
           obtain ⟨aF, hAF, hF1, hF2, hF3, hF4, hw⟩ := ih ss' (bodyStep b op) _ a' hI' hL' hA' hidx' hlen' hh' hz' hC' hG'
             ht' hrest hno' (by rw [hrun]; exact hfin)
@@ -536,7 +530,7 @@ theorem walk_segment {sR : State} (hcurR : sR.cursor ≤ 65535) (d : Message.Dec
     writer state -/
 theorem walk_from_new (macFn : Tsig → List UInt8 → List UInt8) (hmac : MacLenOK macFn)
     (buf : Bytes) (limit : Nat) (s0 : State) (hnew : Writer.new buf limit = .ok s0) (hlim : limit ≤ 65535)
-    (mode : CMode) (ops : List Op) (ht : ∀ op ∈ ops, op.Typed)
+    (mode : CMode) (ops : List Op) (ht : ∀ op ∈ ops, op.Typed) (hb : ∀ op ∈ ops, ApiBounds op)
     (hr : Respects { w := { s0 with mode := mode } } ops) (hv : ∀ v, Op.setLimit v ∈ ops → v ≤ 65535)
     (hno : ∀ op ∈ ops, op ≠ .clearRrs ∧ op ≠ .getters ∧ NonEmptySet op) (mac' : Option (List UInt8)) :
     ∃ m mac d aF, finish (run { w := { s0 with mode := mode } } ops).1.w macFn = .ok (m, mac) ∧
@@ -593,10 +587,12 @@ theorem walk_from_new (macFn : Tsig → List UInt8 → List UInt8) (hmac : MacLe
       · cases hnew
       · have hs := Out.ok.inj hnew
         constructor <;> (rw [← hs])
-    exact ⟨by show none = Option.map _ s0.edns; rw [he.1]; rfl, by show none = Option.map _ s0.tsig; rw [he.2]; rfl⟩
+    exact ⟨by show none = Option.map _ s0.edns; rw [he.1]; rfl, by show none = Option.map _ s0.tsig; rw [he.2]; rfl,
+      (fun e h => by have h' : s0.edns = some e := h; rw [he.1] at h'; cases h'),
+      (fun ts h => by have h' : s0.tsig = some ts := h; rw [he.2] at h'; cases h')⟩
   obtain ⟨aF, hAF, hF1, hF2, hF3, hF4, hw⟩ := walk_segment hcurR d m mac' hpre ops { w := { s0 with mode := mode } } {} {} _
     hI0 hL0 hA0 rfl rfl (by show _ = specHeader s0.octets; rw [hdr_new buf limit s0 hnew]) rfl
-    ⟨rfl, rfl, rfl, rfl, rfl⟩ hG0 ht hr hno hsR
+    ⟨rfl, rfl, rfl, rfl, rfl⟩ hG0 (fun op h => ⟨ht op h, hb op h⟩) hr hno hsR
   obtain ⟨d2, _, _, _, _, hd2, hh2, _⟩ := finish_refines macFn sR B MB hIR hLR hst m mac hf hsz
   rw [hd] at hd2
   cases hd2
